@@ -54,8 +54,8 @@ SLOW_ARMS = ("fresh",)
 
 def arms(tier):
     if tier == "thorough":
-        return [("mixed", 800_000), ("dist", 800_000), ("fresh", 12_000)]
-    return [("mixed", 27_000), ("dist", 27_000), ("fresh", 320)]
+        return [("mixed", 800_000), ("dist", 800_000), ("fresh", 40_000)]
+    return [("mixed", 27_000), ("dist", 27_000), ("fresh", 1_600)]
 
 
 def hist_slice(tier):
@@ -131,10 +131,13 @@ def gen_case(rng, arm, tier, k=0):
             if len(ops) >= 2 and ops[-2][0] == "dist" and rng.random() < 0.7:
                 ops.append(list(ops[-2]))  # the same evaluation on the changed contents
             continue
-        if arm == "dist" or r < 0.45:
+        if arm == "dist" or r < 0.45 or (arm == "fresh" and r < 0.85):
             a = ref()
             b = a if rng.random() < 0.12 else ref()
             ops.append(["dist", metric_for([style_of(a), style_of(b)]), rng.choice(("registry", "model", "kw_xy", "kw_y")), a, b])
+            if rng.random() < 0.08:
+                # the same vectors evaluated in single precision (copies: float32 is not the caller's buffer)
+                ops.insert(len(ops) - 1, ["dist32", rng.choice(("jaccard", "manhattan", "euclidean", "chebyshev")), a, b])
             if rng.random() < 0.3:
                 ops.append(list(ops[-1]))  # the same evaluation again
         elif r < 0.70:
@@ -311,6 +314,9 @@ def execute(op, w, scratch, tag, dealias=False):
         if via == "kw_y":
             return fn(x, y=y)
         return fn(x, y)
+    if kind == "dist32":
+        _, name, a, b = op
+        return B.distance.DISTANCES[name](w.get(a).astype(np.float32), w.get(b).astype(np.float32))
     if kind in ("fit", "fitpredict", "getdist"):
         _, mkind, metric, k, k2, max_k, min_k, use_labels = op
         k %= len(w.mats)
@@ -425,6 +431,8 @@ def sg_state(sg):
 
 
 def touched(op, w):
+    if op[0] == "dist32":
+        return {w.bufname(op[2]), w.bufname(op[3])}
     if op[0] == "prefit":
         return {"mat%d" % (op[2] % len(w.mats)), "pre%d" % (op[2] % len(w.mats))}
     if op[0] in ("mfit", "mpredict"):
@@ -447,6 +455,8 @@ def touched(op, w):
 def op_label(op):
     if op[0] == "mutate":
         return ("mutate",)
+    if op[0] == "dist32":
+        return ("dist32", op[1])
     if op[0] == "prefit":
         return ("prefit", op[1])
     if op[0] in ("mfit", "mpredict"):
@@ -605,7 +615,7 @@ def run_case(case):
         if case.get("arm") == "fresh":
             from . import c19
 
-            sample = [pn for pn in pending if pn[4] and pn[1][0] not in ("precompute", "mfit", "mpredict")][-6:]
+            sample = [pn for pn in pending if pn[4] and pn[1][0] not in ("precompute", "mfit", "mpredict")][-10:]
             for k, op, lab, mclass, ok, a, exc, ver, prep in sample:
                 snap = snapshots[ver]
                 req = {"c07": True, "d": case["d"], "mats": [m.tolist() for m in snap.mats], "labs": [y.tolist() for y in snap.labs], "vecs": [v.tolist() for v in snap.vecs], "pres": [p_.tolist() for p_ in snap.pres], "slots": case.get("slots", []), "layouts": snap.layouts, "op": op}
